@@ -489,6 +489,18 @@ def _getput_case(scr, part, x, y, w, h):
         part.violation('getput-pset/screen-changed/%s' % cls,
                        '%s: GET then PUT,PSET at the same place changed %r' % (
                            tag, [(p, v, scr.tmpl[p[1]][p[0]]) for p, v in sorted(d.items())[:6]]), case)
+    # the same with the first corner written as a fraction (a literal and a variable holding x.5): GET and PUT resolve
+    # the same expression to the same pixel, so putting the block back where it was taken changes nothing
+    if w >= 2 and h >= 2 and order == 0:
+        if _run(scr, part, b'FY#=%d.5:GET (%d.5,FY#)-(%d,%d),A%%' % (y, x, xb, yb), 'get', case) and \
+                _run(scr, part, b'FX!=%d.5:PUT (FX!,%d.5),A%%,PSET' % (x, y), 'put-pset', case):
+            d = scr.diff()
+            if d:
+                part.violation('getput-pset/screen-changed/fractional-corner',
+                               '%s: GET (%d.5,FY#)-(%d,%d) then PUT (FX!,%d.5),PSET changed %r' % (
+                                   tag, x, xb, yb, y, sorted(d)[:6]), case)
+                scr.restore() if hasattr(scr, 'restore') else None
+        _run(scr, part, b'GET (%d,%d)-(%d,%d),A%%' % (xa, ya, xb, yb), 'get', case)
     # observation only: PUT,PSET onto the erased region brings the content back?
     rows = g.rows(0)
     for yy in range(y, y + h):
